@@ -1061,7 +1061,7 @@ class FDE:
         if isinstance(e, (ast.GeneratorExp, ast.ListComp)) and len(e.generators) == 1 and not e.generators[0].is_async:
             gen = e.generators[0]
             it = self._ev(gen.iter, env, fi)
-            if isinstance(it, (dict, set)):
+            if isinstance(it, (dict, set, str, bytes)):
                 it = list(it)
             if not isinstance(it, (list, tuple)) and type(it).__name__ not in _ITER_TYPES:
                 raise Unsupported('comprehension over non-concrete iterable: ' + unparse(gen.iter))
@@ -1075,7 +1075,7 @@ class FDE:
         if isinstance(e, (ast.DictComp, ast.SetComp)) and len(e.generators) == 1 and not e.generators[0].is_async:
             gen = e.generators[0]
             it = self._ev(gen.iter, env, fi)
-            if isinstance(it, (dict, set)):
+            if isinstance(it, (dict, set, str, bytes)):
                 it = list(it)
             if not isinstance(it, (list, tuple)) and type(it).__name__ not in _ITER_TYPES:
                 raise Unsupported('comprehension over non-concrete iterable: ' + unparse(gen.iter))
